@@ -89,7 +89,9 @@ def configurations(quick):
             conf('get(a);get(a) || set(a,v1), a on disk', [[('get', 'a'), ('get', 'a')], [('set', 'a', 'v1')]], {'a': 'old'}),
             conf('get(a) || set(a,v1);set(a,v2), a on disk', [[('get', 'a')], [('set', 'a', 'v1'), ('set', 'a', 'v2')]], {'a': 'old'}),
             conf('set(a,v1) || set(a,v2), a absent', [[('set', 'a', 'v1')], [('set', 'a', 'v2')]], {}),
-            conf('get(a) || set(a,v1) || set(a,v2), a on disk', [[('get', 'a')], [('set', 'a', 'v1')], [('set', 'a', 'v2')]], {'a': 'old'}),
+            # three threads: 1 preemption (2 preemptions = > 15 CPU-minutes for this one configuration)
+            dict(conf('get(a) || set(a,v1) || set(a,v2), a on disk', [[('get', 'a')], [('set', 'a', 'v1')], [('set', 'a', 'v2')]],
+                      {'a': 'old'}), bound=1),
         ]
     return out
 
